@@ -1,7 +1,7 @@
 """C05 — scale-variation terms satisfy the renormalisation-group equations."""
 import numpy as np
 from lib import common, cards, runs, spec
-from corr import scalevar
+from corr import scalevar, assembly
 
 LEVEL = "proof"
 TRUSTED = ["Coq 8.16.1 kernel + vm_compute", "tools/corr/scalevar.py (harness)",
@@ -225,6 +225,12 @@ def run(chk):
     intrinsic_patrol(chk, 6 if chk.tier == "quick" else 30)
     bad = scalevar.run_scalevar(chk, 50 if quick else 600)
     chk.oblige("correspondence ScaleVariations (model = real manager, multi-nf sequences)", not bad, str(bad[:1])[:600])
+    bad_a = assembly.run_assembly(chk, 60 if quick else 600)
+    chk.oblige("correspondence compute_local (the real assembly step incl. the intrinsic branch = sv_kernel + tensor_at)", not bad_a, str(bad_a[:1])[:600])
+    for b in bad_a[:2]:
+        chk.violation("assembly:%s:pto%d" % ("intrinsic" if b["intrinsic"] else "light", b["pto"]),
+                      "compute_local (pto %d, nf %d, ren=%s, fact=%s, %s kernel with orders %s, convolution point %s, x = %s) does not produce the tensors of the model: keys %s %s"
+                      % (b["pto"], b["nf"], b["ren"], b["fact"], "heavy-quark initiated" if b["intrinsic"] else "ordinary", b["orders"], b["cp"], b["x"], b["keys"], b["error"] or ""), dict(assembly=b))
     patrol(chk, 5 if quick else 60)
     if chk.red() and not chk.violations:
         patrol(chk, 40)
